@@ -240,7 +240,15 @@ def make_pm(ch, n_qubits=2, zero_loops=True):
             elif c < 52:
                 out.append(["g", ch.pick(["X", "X", "I_X"]), [["ix", "q", ch.int(0, n_qubits - 1)]]])
             elif c < 68 and depth > 0:
-                out.append(["loop", ch.pick(counts), ["seq", items(depth - 1, in_sub, in_par, False, macros)]])
+                if ch.int(0, 3) == 0:
+                    # the loop body is itself a single-branch parallel block: `loop 2 < measure_all >`
+                    inner = items(depth - 1, in_sub, True, False, macros)
+                    if len(inner) == 1 and inner[0][0] == "g" and ch.bool():
+                        out.append(["loop", ch.pick(counts), ["par", [inner[0]]]])
+                    else:
+                        out.append(["loop", ch.pick(counts), ["par", [["seq", inner]]]])
+                else:
+                    out.append(["loop", ch.pick(counts), ["seq", items(depth - 1, in_sub, in_par, False, macros)]])
             elif c < 80 and depth > 0 and not in_sub and not in_par:
                 body = [s for s in items(depth - 1, True, in_par, False, macros) if not (s[0] == "g" and s[1] in ("prepare_all", "measure_all")) or ch.int(0, 9) == 0]
                 out.append(["sub", None if ch.bool() else ch.int(0, 5), body])
